@@ -21,7 +21,7 @@ Judge(k) ==
   /\ Report(k, "C09.ConsRootsAreHeaderRoots", ln(k).st.rootsok /\ ln(k).st.headok)
   /\ IsStep(k) =>
      LET hd == Hd(ln(k).args.hd)  ok == ln(k).res = "ok" IN
-     /\ Report(k, "C09.AcceptedIsChild", ok => (hd.number = number + 1 /\ hd.parentOK /\ hd.structOK /\ ((hd.number % Epoch # 0) => hd.extra = {})))
+     /\ Report(k, "C09.AcceptedIsChild", ok => (hd.number = number + 1 /\ hd.parentOK /\ hd.structOK /\ ((hd.number % Epoch # 0) => hd.extra = {}) /\ ((hd.number % Epoch = 0) => hd.extra # {})))
      /\ Report(k, "C09.SignerEligible", ok => Eligible(hd))
      (* the same clause against what really happened: the sealer sealed none of the last floor(N/2) accepted blocks *)
      /\ Report(k, "C09.NotARecentSealer", ok => hd.signer \notin { sealed[m] : m \in {x \in DOMAIN sealed : x >= hd.number - (Cardinality(validators) \div 2) /\ x < hd.number} })
